@@ -130,8 +130,7 @@ def check(run, prog, tier):
     # ------------------------------------------------------------------ S5 reboot evidence is recognised exactly
     # (a restarted peer that is not recognised keeps stale subscriptions / offers alive for ever with infinite TTLs)
     from . import C07
-    sub = report.Run("C07", tier, run.seed, quiet=True)
-    C07.check(sub, prog, tier)
+    sub = report.subrun(C07, "C07", prog, tier, run.seed)
     n7 = 0
     for o in sub.obs:
         n7 += 1
@@ -143,9 +142,9 @@ def check(run, prog, tier):
     # ------------------------------------------------------------------ S4 (decided by C10 / C14 rule instances)
     from . import C10, C14
     for mod, pid, picks in ((C10, "C10", ("offer-carries-ANNOUNCE_TTL", "phase-delays", "initial-delay", "repetitions-bounded")),
-                            (C14, "C14", ("_send_start_subscribe:ttl", "sleeps-refresh-interval", "every-server-every-round"))):
-        sub = report.Run(pid, tier, run.seed, quiet=True)
-        mod.check(sub, prog, tier)
+                            (C14, "C14", ("_send_start_subscribe:ttl", "sleeps-refresh-interval", "every-server-every-round", "round-sends-every-requested-pair",
+                                          "keeps-the-requested-set", "who-changes-the-requested-set"))):
+        sub = report.subrun(mod, pid, prog, tier, run.seed)
         n = 0
         for o in sub.obs:
             if any(k in o.construct for k in picks):
